@@ -359,6 +359,28 @@ def discharge(ob, inputs, both=False, timeout_ms=None):
     return ob
 
 
+
+class ReplayCrash(Exception):
+    """the replay harness itself failed (not the library): a checker error, never a verdict"""
+
+
+def run_replay(con, model, rec):
+    """Run the contract's native replay.  An exception escaping from *library* code (innermost frame under the repository)
+    on the replay's own well-formed inputs is a failing input; an exception in the harness is a checker error."""
+    import os
+
+    try:
+        return con.replay(model, rec)
+    except Exception as e:
+        tb = traceback.extract_tb(e.__traceback__)
+        inner = os.path.realpath(tb[-1].filename) if tb else ""
+        repo_src = os.path.realpath(os.environ.get("PPTX_REPO", "/repo"))
+        if inner.startswith(repo_src + os.sep):
+            return {"confirmed": True, "witness_class": "library-exception",
+                    "detail": "the replay's own well-formed input made the library raise %r at %s:%d" % (e, os.path.relpath(inner, repo_src), tb[-1].lineno)}
+        raise ReplayCrash("replay of %s crashed: %s" % (con.name, traceback.format_exc()[-1500:]))
+
+
 def run_contract(con, both=False):
     """Explore + discharge one contract.  Returns a plain dict (picklable)."""
     t0 = time.time()
@@ -385,10 +407,7 @@ def run_contract(con, both=False):
             # BOUNDED stand-in: the function left the generator's subset; search the contract's systematic native inputs
             rec = {"name": "%s.bounded_standin" % con.name, "base": "%s.bounded_standin" % con.name, "kind": "bounded", "backend": "native-bounded",
                    "time": 0, "path": -1, "info": {"why": "contract outside the supported subset: %s" % e}}
-            try:
-                rr = con.replay({}, rec)
-            except Exception:
-                rr = {"confirmed": False, "detail": "replay crashed: " + traceback.format_exc()[-800:]}
+            rr = run_replay(con, {}, rec)
             rec["status"] = "refuted" if rr.get("confirmed") else "discharged"
             rec["replay"] = jsonable(rr)
             rec["model"] = None
@@ -460,10 +479,7 @@ def run_contract(con, both=False):
                 if ob.status == "unknown" and ob.kind in ("post", "inv") and con.replay is not None and not ob.info.get("overapprox"):
                     # BOUNDED stand-in for an undecided obligation: the contract's native replay searches its
                     # systematic small inputs; a failing native input is a violation, anything else stays undecided
-                    try:
-                        rr = con.replay({}, rec)
-                    except Exception:
-                        rr = {"confirmed": False, "detail": "replay crashed: " + traceback.format_exc()[-800:]}
+                    rr = run_replay(con, {}, rec)
                     if rr.get("confirmed"):
                         rec["status"] = "refuted"
                         rec["backend"] = "native-bounded"
@@ -471,10 +487,7 @@ def run_contract(con, both=False):
                     else:
                         rec["bounded_search"] = jsonable(rr)
                 if ob.status == "refuted" and ob.kind in ("post", "inv") and con.replay is not None:
-                    try:
-                        rr = con.replay(dict(ob.model or {}), rec)
-                    except Exception:
-                        rr = {"confirmed": False, "detail": "replay crashed: " + traceback.format_exc()[-1500:]}
+                    rr = run_replay(con, dict(ob.model or {}), rec)
                     rec["replay"] = jsonable(rr)
             else:
                 rec["claim"] = str(ob.claim)[:300]
